@@ -754,6 +754,8 @@ def substring_pairs(rng, quick, rev=False):
             pairs.append((x, h))
             if rng.random() < 0.3:
                 pairs.append((x, b"z" * 50 + h if rng.random() < 0.5 else h + b"z" * 50))
+    sm = stale_memory_pairs(rng, quick)
+    pairs += sm[::5] if quick else sm
     if not quick:
         for _ in range(400):
             n = rng.choice([rng.randrange(1, 8), rng.randrange(2, 40), rng.randrange(33, 120)])
@@ -764,6 +766,33 @@ def substring_pairs(rng, quick, rev=False):
             if L >= n and rng.random() < 0.7:
                 p = rng.randrange(0, L - n + 1); h[p:p + n] = x
             pairs.append((x, bytes(h)))
+    return pairs
+
+def stale_memory_pairs(rng, quick):
+    """long needles x = (w^3)[:L] with period p = |w| < L (border s = L - p) and haystacks
+       filler + C + x[s-k..] + filler, where C is x with one byte of its left part changed and 0 < k < s.
+       Two-Way (small-period loop) matches the right part of C, fails on the left, advances by p and remembers the border;
+       a prefilter whose rare bytes sit at offsets >= s then skips k bytes to a window that agrees with x everywhere
+       except inside the first s-k bytes: only a search that forgets (or re-checks) the remembered prefix gets it right.
+       (seeded change C10-a)"""
+    pairs = []
+    shapes = [(22, 36), (32, 47), (17, 33), (20, 39), (26, 40)] if quick else \
+             [(22, 36), (32, 47), (17, 33), (20, 39), (26, 40), (18, 35), (30, 50), (40, 64), (23, 45), (33, 65)]
+    for (pp, L) in shapes:
+        for rep in range(1 if quick else 3):
+            w = bytes(rng.choice(b"abcde") for _ in range(pp))
+            if len(set(w)) < 3:
+                continue
+            x = (w * 4)[:L]
+            sb = L - pp
+            for k in range(1, sb):
+                if quick and (k * 7 + pp) % 3 == 0:
+                    continue
+                for j in ((0, 2) if quick else (0, 1, 2, 5)):
+                    c = bytearray(x); c[j] = 0x66 if c[j] != 0x66 else 0x67
+                    core = bytes(c) + x[sb - k:]
+                    pairs.append((x, core))
+                    pairs.append((x, b"-" * 3 + core + b"-" * 20))
     return pairs
 
 def gen_mm(tier, rng, fwd=True, configs=True):
@@ -976,6 +1005,13 @@ def gen_c10(tier, rng):
                 for cpu in (CPUS if (not quick or k % 3 == 0) else [CPUS[k % 3]]):
                     cpus = f" cpu={cpu}" if cpu else ""
                     cases.append(f"mm f=find cfg={cfg} rank={rk}{cpus} x={hexs(x)} h={hexs(h)} a={(k * 5) % 64}")
+    # stale Two-Way memory after a prefilter skip: depends on where the ranker puts the rare bytes
+    for (x, h) in stale_memory_pairs(rng, quick):
+        k += 1
+        for rk in ("rev", "id", "default"):
+            cpu = CPUS[k % 3]
+            cpus = f" cpu={cpu}" if cpu else ""
+            cases.append(f"mm f=find cfg=auto rank={rk}{cpus} x={hexs(x)} h={hexs(h)} a={(k * 5) % 64}")
     return cases
 
 def oracle_c10(op, kv, res, trace, flags):
@@ -1314,14 +1350,14 @@ def labels_of(trace):
         return parts[2].split(",") if len(parts) > 2 else []
     return [t for t in trace.split(",") if t.startswith("B")]
 
-# constants of the proved bound (Props/C13.v): steps <= K * (|h| + 1) + 6 * |x| + K0
-C13_K_VECTOR = 263      # Two-Way + vector prefilter (find_simple near the end dominates the constant); packed pair is 43
-C13_K_FALLBACK = 4905   # Two-Way + portable prefilter
-C13_K0 = 1500
+# constants of the proved bound (Props/C13.v: C13_find, C13_finder, C13_rfind):
+#   building + one search:  steps <= K * (|h| + 1) + 6 * |x| + 11,  K = 4905 forward, 70 reverse
+C13_K_FWD = 4905
+C13_K_REV = 70
 
-def c13_bound(kv, n, m, calls=1):
-    K = C13_K_FALLBACK if kv.get("cpu") == "none" else C13_K_VECTOR
-    return calls * (K * (n + 1) + 6 * m + C13_K0)
+def c13_bound(kv, n, m):
+    rev = kv.get("f") in ("rfind", "rtop") or kv.get("dir") == "r"
+    return (C13_K_REV if rev else C13_K_FWD) * (n + 1) + 6 * m + 11
 
 def c13_families(N, rng):
     fam = []
@@ -1386,13 +1422,21 @@ def gen_c13(tier, rng):
     return cases
 
 def gen_c13_escalate(rng):
-    """bigger needles: exposes a removed cap on the packed-pair needle length, or any per-byte cost that grows with m"""
+    """sizes at which a cost per haystack byte that grows with the needle (a removed cap on the packed-pair needle length,
+    Rabin-Karp let loose on long haystacks, lost Two-Way memory) exceeds the proved constant; run on the implementation only"""
     cases = []
-    N = 1 << 16
-    for m in (512, 2048, 8192):
+    for (N, m) in ((1 << 18, 1 << 16), (1 << 19, 1 << 17)):
         unit = b"a" * (m - 1) + b"b"
         cases.append(f"mm f=find cfg=auto rank=default x={hexs(b'a' * m)} h={hexs((unit * (N // m + 1))[:N])}")
         cases.append(f"mm f=find cfg=auto rank=default x={hexs(b'a' * (m - 1) + b'b')} h={hexs(b'a' * N)}")
+        cases.append(f"mm f=find cfg=none rank=default x={hexs(b'b' + b'a' * (m - 1))} h={hexs(b'a' * N)}")
+        cases.append(f"mm f=rfind x={hexs(b'b' + b'a' * (m - 1))} h={hexs(b'a' * N)}")
+        cases.append(f"mm f=rfind x={hexs(b'a' * m)} h={hexs(((b'b' + b'a' * (m - 1)) * (N // m + 1))[:N])}")
+        # haystacks shorter than twice the needle
+        cases.append(f"mm f=find cfg=auto rank=default x={hexs(b'a' * (m - 41) + b'b' + b'a' * 40)} h={hexs(b'a' * (2 * m - 1))}")
+        cases.append(f"mm f=rfind x={hexs(b'a' * (m - 1) + b'b')} h={hexs(b'a' * (2 * m - 1))}")
+        x = (b"abcdefgh" * (m // 8))[:m - 3]
+        cases.append(f"mm f=find cfg=auto rank=default x={hexs(x)} h={hexs(((b'-' * 90) + x[:-1] + b'!' + x[8:-1] + b'!') * 2)}")
     return cases
 
 def oracle_c13(op, kv, res, trace, flags):
@@ -1403,9 +1447,13 @@ def oracle_c13(op, kv, res, trace, flags):
         return None
     n, m = len(h), len(x)
     st = steps_of(trace)
-    calls = int(kv["k"]) if op == "mmiter" else 1
-    # a complete traversal: each call works on the remaining suffix; the bound for the whole traversal is the sum
-    bound = c13_bound(kv, n, m, calls=1) + (calls - 1) * (6 * m + C13_K0 + (C13_K_FALLBACK if kv.get("cpu") == "none" else C13_K_VECTOR) * (m + 2)) if op == "mmiter" else c13_bound(kv, n, m)
+    if op == "mmiter":
+        # a complete traversal of k calls: every call but the last reports a match and resumes behind it, so the
+        # calls together cover the haystack once plus one needle length per call
+        calls = int(kv["k"])
+        bound = c13_bound(kv, n + calls * (m + 1), m) + calls * (6 * m + 11)
+    else:
+        bound = c13_bound(kv, n, m)
     if st > bound:
         return (f"{op} {kv.get('f', kv.get('dir', ''))} performed {st} elementary steps on |h|={n}, |x|={m} "
                 f"({st / max(1, n + m):.1f} per byte), above the proved linear bound {bound}")
